@@ -49,6 +49,9 @@ def universe():
     sv += [('sv', d, v, ef) for d in docs for v in VALIDATORS for ef in (False, True)]
     synth = sorted(os.path.join(SYNTH, f) for f in os.listdir(SYNTH) if f.endswith('.json'))
     sv += [('sv', f, v, ef) for f in synth for v in VALIDATORS for ef in (False, True)]
+    # validator classes built on the fly (jsonschema.validators.extend) and dropped after the call, as a caller with its own
+    # keyword set does: 'ext:<base>' - judged like any other call against its own first call in a fresh process
+    sv += [('sv', f, 'ext:' + v, ef) for f in synth + top[:2] for v in ('Draft3Validator', 'Draft4Validator', 'Draft7Validator') for ef in (False, True)]
     va = [('va', d, s, ef) for d in docs for s in top for ef in (False, True)]
     sdocs = [f for f in synth if os.path.basename(f).startswith('doc_')]
     va += [('va', d_, f, ef) for d_ in sdocs for f in synth if f not in sdocs for ef in (False, True)]
@@ -99,7 +102,16 @@ def do_call(c):
             os.chdir(os.path.join(REPO, 'tests'))
         with contextlib.redirect_stdout(buf):
             if c[0] == 'sv':
-                r = u.schema_valid(c[1], validator=getattr(jsonschema, c[2]), expect_failure=c[3])
+                if c[2].startswith('ext:'):
+                    import gc
+                    cls = jsonschema.validators.extend(getattr(jsonschema, c[2][4:]), {})
+                    try:
+                        r = u.schema_valid(c[1], validator=cls, expect_failure=c[3])
+                    finally:
+                        del cls
+                        gc.collect()
+                else:
+                    r = u.schema_valid(c[1], validator=getattr(jsonschema, c[2]), expect_failure=c[3])
             else:
                 r = u.valid_against_schema(c[1], c[2], expect_failure=c[3])
         return repr(r)
@@ -152,6 +164,7 @@ print("RESULT" + json.dumps([do_call(tuple(c)) for c in calls]))
 '''
 
 
+RULE = RULE + '; schema checks also with validator classes built on the fly (jsonschema.validators.extend) and dropped after the call, several in a row on one file'
 OTHER_ENV = {'LC_ALL': 'C', 'LANG': 'C', 'PYTHONUTF8': '0', 'PYTHONCOERCECLOCALE': '0', 'TZ': 'Pacific/Kiritimati',
              'PYTHONOPTIMIZE': '1'}
 
@@ -508,6 +521,12 @@ def run(ctx):
                 break
         hists.append([x] + others + [x])
         hists.append([x] + others + [key_of(x) + (not x[3],)])
+    # throw-away classes one after the other on the same file (a later class may come to live where an earlier one did)
+    exts = [c for c in sv if c[2].startswith('ext:')]
+    for f in sorted(set(c[1] for c in exts)):
+        mine = [c for c in exts if c[1] == f and not c[3]]
+        for k in range(4):
+            hists.append([mine[(k + i) % len(mine)] for i in range(3 * len(mine))])
     ctx.extra['histories_enumerated'] = len(hists)
     rng.shuffle(hists)
     parts = [hists[i::32] for i in range(32)]
